@@ -184,6 +184,19 @@ def main():
             hard = re.search(rf"{name}\([^;{{]*\)\s*\?", ib) is not None
             if present:
                 init_steps.append((name, "some true" if soft else ("some false" if hard else "none")))
+    # fill_thread_stack: the order of its steps (first occurrence of each recognisable call in the function body);
+    # "none" when a step is not found where it is expected (moved into a helper: not recognisable)
+    fm = re.search(r"fn fill_thread_stack\(.*?\n\}\n", tl, re.S)
+    fts = "none"
+    if fm:
+        fb = fm.group(0)
+        marks = [("get_stack_info", r"\.get_stack_info\("), ("shorten", r"MaxStackLen::Len\("), ("copy_from_process", r"copy_from_process\("),
+                 ("offset_in_copy", r"let stack_pointer_offset\s*="),
+                 ("skip_rule", r"stack_has_pointer_to_mapping\("), ("sanitize", r"sanitize_stack_copy\("), ("write", r"buffer\.write_all\("),
+                 ("register_block", r"memory_blocks\.push\(")]
+        pos = [(re.search(rx, fb).start(), n) for n, rx in marks if re.search(rx, fb)]
+        if len(pos) == len(marks):
+            fts = "some [" + ", ".join(f'"{n}"' for _, n in sorted(pos)) + "]"
     out = []
     out.append("/- GENERATED by gen/extract.py from /repo's source — do not edit. -/")
     out.append("namespace Mdw.Src\n")
@@ -204,6 +217,7 @@ def main():
     out.append(f"\n/-- does `dump()` reset memory_blocks / crashing_thread_context / principal_mapping on entry? (none = not recognisable) -/\ndef dumpResetsTransient : Option Bool := {resets}")
     out.append("\n/-- the fallible steps of PtraceDumper::init: (name, failure is pushed as a soft error; none = not recognisable) -/\ndef initSteps : List (String × Option Bool) := [" +
                ", ".join(f'("{n}", {b})' for n, b in init_steps) + "]")
+    out.append(f"\n/-- the steps of fill_thread_stack in source order (none = not recognisable) -/\ndef fillThreadStackSteps : Option (List String) := {fts}")
     out.append("\nend Mdw.Src\n")
     text = "\n".join(out)
     os.makedirs(os.path.dirname(OUT), exist_ok=True)
